@@ -535,7 +535,11 @@ impl EventGen for ConfigElement {
                 }
             }
         }
-        context.set_config(new_config);
+        // (only a `seed` setting restarts the random sequence)
+        if self.0.has_attr("seed") {
+            context.seed_rng(new_config.seed);
+        }
+        context.update_config(new_config);
         Ok((OutputList::new(), None))
     }
 }
